@@ -29,10 +29,14 @@ def run(ctx):
             chanlib.liveness_tie(ctx, "replay", [h, "run", ctx.replay], drv)
         chanlib.layer_b(ctx, LAYER_B); return
     for w in ("C06_F2_wake_one_swallowed_by_dropped_future.case", "C06_F14_mpsc_b_async_send_fut_not_woken.case",
-              "C06_F1_rdv_dropped_recv_future.case", "C06_F17_mpmc2_spurious_repoll_steals.case",
+              "C06_F1_rdv_dropped_recv_future.case",
               "C04_OBS_oneshot_recv_after_taken.case"):
         if os.path.exists(os.path.join(VERIF, "findings", w)):
             chanlib.liveness_tie(ctx, "known-" + w[:-5], [h, "run", os.path.join(VERIF, "findings", w)], drv)
+    # regression programs of repaired liveness findings (must pass with no monitor): F17 (fixed cd494c8)
+    for w in ("C06_F17_fixed_mpmc2_spurious_repoll.case",):
+        if os.path.exists(os.path.join(VERIF, "corpus", "chan", w)):
+            chanlib.liveness_tie(ctx, "corpus-" + w[:-5], [h, "run", os.path.join(VERIF, "corpus", "chan", w)], drv)
     ns = 3000 if ctx.quick else 40000
     chanlib.tie(ctx, "seq-differential", [h, "gen", "--seed", str(ctx.seed), "--cases", str(ns), "--mode", "seq", "--tier", ctx.tier], [drv])
     n = 4000 if ctx.quick else 80000
